@@ -116,11 +116,11 @@ reg('WeightedClose', cfg=lambda r, h: ([P(r, h)], []), default=([20], []), idle=
     rule=lambda v, s, pv: B if v[0] > v[1] else S, margin=lambda v, s, pv: abs(v[0] - v[1]))
 reg('AwesomeOscillator', cfg=lambda r, h: (list(two_sorted(r, h)), []), default=([5, 34], []), idle=lambda ns: ns[1] - 1,
     inds=[('AwesomeOscillator', lambda ns: ns, 'hl')], rule=lambda v, s, pv: sign(v[0]), margin=lambda v, s, pv: abs(v[0]))
-reg('Rsi', cfg=lambda r, h: ([P(r, h)], r.choice([[30.0, 70.0], [45.0, 55.0], [50.0, 50.0], [20.0, 80.0], [60.0, 40.0]])), default=([14], [30.0, 70.0]),
+reg('Rsi', cfg=lambda r, h: ([P(r, h)], r.choice([[30.0, 70.0], [45.0, 55.0], [50.0, 50.0], [20.0, 80.0], [60.0, 40.0], [0.0, 100.0], [0.0, 55.0], [45.0, 0.0], [100.0, 0.0]])), default=([14], [30.0, 70.0]),
     idle=lambda ns: ns[0], inds=[('Rsi', lambda ns: ns, 'c')], uses_fs=True,
     rule=lambda v, s, pv, fs: B if v[0] <= fs[0] else (S if v[0] >= fs[1] else H),
     margin=lambda v, s, pv, fs: min(abs(v[0] - fs[0]), abs(v[0] - fs[1])))
-reg('StochasticRsi', cfg=lambda r, h: ([P(r, h)], r.choice([[0.8, 0.2], [0.2, 0.8], [0.4, 0.6], [0.5, 0.5], [0.1, 0.3]])), default=([14], [0.8, 0.2]),
+reg('StochasticRsi', cfg=lambda r, h: ([P(r, h)], r.choice([[0.8, 0.2], [0.2, 0.8], [0.4, 0.6], [0.5, 0.5], [0.1, 0.3], [0.0, 1.0], [0.0, 0.9], [0.1, 0.0], [1.0, 0.0]])), default=([14], [0.8, 0.2]),
     idle=lambda ns: 2 * ns[0] - 1, inds=[('StochasticRsi', lambda ns: ns, 'c')], uses_fs=True,
     rule=lambda v, s, pv, fs: B if v[0] <= fs[0] else (S if v[0] >= fs[1] else H),
     margin=lambda v, s, pv, fs: min(abs(v[0] - fs[0]), abs(v[0] - fs[1])))
@@ -137,7 +137,7 @@ reg('EaseOfMovement', cfg=lambda r, h: ([P(r, h)], []), default=([14], []), idle
     inds=[('Emv', lambda ns: ns, 'hlv')], rule=lambda v, s, pv: sign(v[0]), margin=lambda v, s, pv: abs(v[0]))
 reg('ForceIndex', cfg=lambda r, h: ([P(r, h)], []), default=([13], []), idle=lambda ns: ns[0],
     inds=[('Fi', lambda ns: ns, 'cv')], rule=lambda v, s, pv: sign(v[0]), margin=lambda v, s, pv: abs(v[0]))
-reg('MoneyFlowIndex', cfg=lambda r, h: ([P(r, h)], r.choice([[80.0, 20.0], [55.0, 45.0], [50.0, 50.0], [60.0, 40.0], [30.0, 70.0]])), default=([14], [80.0, 20.0]),
+reg('MoneyFlowIndex', cfg=lambda r, h: ([P(r, h)], r.choice([[80.0, 20.0], [55.0, 45.0], [50.0, 50.0], [60.0, 40.0], [30.0, 70.0], [100.0, 0.0], [0.0, 45.0], [55.0, 0.0], [0.0, 100.0]])), default=([14], [80.0, 20.0]),
     idle=lambda ns: ns[0], inds=[('Mfi', lambda ns: ns, 'hlcv')], uses_fs=True,
     rule=lambda v, s, pv, fs: S if v[0] >= fs[0] else (B if v[0] <= fs[1] else H),
     margin=lambda v, s, pv, fs: min(abs(v[0] - fs[0]), abs(v[0] - fs[1])))
